@@ -1,6 +1,6 @@
 """Number codec and ordering rules (R18.x), shared by C01, C04, C12, C14, C18."""
 from sym import explore, show, lin, subterms, INT_RANGES
-from pat import called, canon, is_call, agg_variant, strip_casts, const_of, deref_all, find_terms
+from pat import slice_head, slice_tail1, is_arg, called, canon, is_call, agg_variant, strip_casts, const_of, deref_all, find_terms
 from pathfacts import PathFacts, IntervalSet, INF
 from rules.layout import cv
 
@@ -62,7 +62,7 @@ def r18_1(ctx, run, rule='R18.1'):
     f = ctx.facts
     b = f.one('number::Number::compact_encode')
     if b is None:
-        run.violation(rule, 'number::Number::compact_encode', 'body', 'function not found (anchor lost)')
+        run.undecided(rule, 'number::Number::compact_encode', 'body', 'function not found (anchor lost)')
         return {}
     ps, capped = explore(b, max_paths=4000)
     if capped:
@@ -224,12 +224,13 @@ def r18_2(ctx, run, rule='R18.2', enc_table=None):
     f = ctx.facts
     b = f.one('number::Number::decode')
     if b is None:
-        run.violation(rule, 'number::Number::decode', 'body', 'function not found (anchor lost)')
+        run.undecided(rule, 'number::Number::decode', 'body', 'function not found (anchor lost)')
         return
     ps, capped = explore(b)
     tags = {n: cv(f, n) for n in ('NUMBER_ZERO', 'NUMBER_NAN', 'NUMBER_INF', 'NUMBER_NEG_INF', 'NUMBER_INT', 'NUMBER_UINT', 'NUMBER_FLOAT')}
     tname = {v: k for k, v in tags.items()}
     table = {}
+    unrec = []    # discriminating conditions / results whose meaning was not recognised
     for p in ps:
         if p.end[0] != 'return':
             continue
@@ -239,19 +240,37 @@ def r18_2(ctx, run, rule='R18.2', enc_table=None):
         len_other = None
         for c in p.conds:
             t = c[0]
-            if t[0] == 'index' and c[1] == 'eq':
-                tag = c[2]
-            elif t[0] == 'index' and c[1] == 'ne':
-                tag_other = True
-            elif c[1] in ('eq', 'ne') and not isinstance(c[2], bool):
+            if isinstance(c[2], bool):
+                continue
+            hd = slice_head(t)
+            if hd is not None and is_arg(hd, 1):
+                # the tag: first byte of the argument (bytes[0], *split_first()?.0, *first()?)
+                if c[1] == 'eq':
+                    tag = c[2]
+                elif c[1] == 'ne':
+                    tag_other = True
+                continue
+            if c[1] in ('eq', 'ne'):
+                # the payload length: len(bytes) - 1, or len of bytes[1..] / split_first()?.1
                 l = lin(t)
-                if len(l[0]) == 1 and list(l[0].values()) == [1] and l[1] == -1:
+                is_len = False
+                if len(l[0]) == 1 and list(l[0].values()) == [1]:
                     a = list(l[0])[0]
-                    if a[0] == 'call' and called(a[1], 'slice::len', 'len') or a[0] == 'len':
-                        if c[1] == 'eq':
-                            plen = c[2]
-                        else:
-                            len_other = c[2]
+                    if a[0] == 'call' and called(a[1], 'slice::len', 'len') and a[2]:
+                        if l[1] == -1 and is_arg(a[2][0], 1):
+                            is_len = True
+                        elif l[1] == 0:
+                            tl = slice_tail1(a[2][0])
+                            is_len = tl is not None and is_arg(tl, 1)
+                    elif a[0] == 'len' and l[1] == -1 and is_arg(a[1], 1):
+                        is_len = True
+                if is_len:
+                    if c[1] == 'eq':
+                        plen = c[2]
+                    else:
+                        len_other = c[2]
+                elif c[1] == 'eq' and not (t[0] == 'discr'):
+                    unrec.append(show(t)[:80])
         ret = p.ret
         res = None
         if agg_variant(ret) and ret[1][2] == 'Err':
@@ -268,7 +287,10 @@ def r18_2(ctx, run, rule='R18.2', enc_table=None):
                 elif inner[0] == 'const':
                     res = ('const', v[1][2], inner[1])
                 else:
-                    res = ('?', v[1][2], show(inner))
+                    res = ('?', v[1][2], show(inner)[:60])
+                    unrec.append(res[2])
+        if tag is None and not tag_other and res != ('Err',):
+            unrec.append('no tag test on the path to ' + str(res)[:60])
         key = (tname.get(tag, tag) if not tag_other else 'otherwise', plen if plen is not None else ('otherwise' if len_other is not None else None))
         table.setdefault(key, set()).add(res)
     loc = f'{b.file}:{b.line}'
@@ -285,6 +307,8 @@ def r18_2(ctx, run, rule='R18.2', enc_table=None):
         ('NUMBER_INT', 'otherwise'): {('Err',)}, ('NUMBER_UINT', 'otherwise'): {('Err',)}, ('NUMBER_FLOAT', 'otherwise'): {('Err',)},
         ('otherwise', None): {('Err',)},
     }
+    if capped:
+        unrec.append('path cap exceeded')
     for k, v in exp.items():
         got = table.get(k)
         d = f'row[{k[0]},{k[1] if k[1] is not None else "-"}]'
@@ -295,10 +319,18 @@ def r18_2(ctx, run, rule='R18.2', enc_table=None):
             if k[0] == 'NUMBER_NAN' and got and all(r and r[0] == 'const' and r[1] == 'Float64' and str(r[2]).startswith('bits:') and _is_nan_bits(r[2]) for r in got):
                 run.proved(rule, b.path, d, '-> Float64(NaN)', loc)
                 continue
-            run.violation(rule, b.path, d, f'expected {sorted(v)}, found {sorted(map(str, got)) if got else "no such row"}: the decoder does not invert the encoder for this (tag, payload length)', loc)
+            recognised_wrong = got and all(r is not None and r[0] != '?' for r in got)
+            if recognised_wrong or (not got and not unrec):
+                run.violation(rule, b.path, d, f'expected {sorted(v)}, found {sorted(map(str, got)) if got else "no such row"}: the decoder does not invert the encoder for this (tag, payload length)', loc)
+            else:
+                run.undecided(rule, b.path, d, f'the decoder is not written as a (tag, payload length) table this rule can read ({unrec[0] if unrec else "unrecognised result"}); '
+                              f'the row could not be compared with the encoder', loc)
     for k, got in table.items():
         if k not in exp and got != {('Err',)} and got != {None}:
-            run.violation(rule, b.path, f'row[{k[0]},{k[1]}]', f'unexpected decoder row {sorted(map(str, got))} (the encoder never produces this form)', loc)
+            if k[0] is None or any(r is None or r[0] == '?' for r in got):
+                run.undecided(rule, b.path, f'row[{k[0]},{k[1]}]', f'decoder path with unrecognised discriminator or result {sorted(map(str, got))[:3]}', loc)
+            else:
+                run.violation(rule, b.path, f'row[{k[0]},{k[1]}]', f'unexpected decoder row {sorted(map(str, got))} (the encoder never produces this form)', loc)
     # widening casts must preserve the value: source type signedness == variant signedness is covered by the table above
 
 
@@ -518,7 +550,7 @@ def r18_5(ctx, run, rule='R18.5'):
     for fn, target in (('as_i64', 'i64'), ('as_u64', 'u64')):
         b = f.one('number::Number::' + fn)
         if b is None:
-            run.violation(rule, 'number::Number::' + fn, 'body', 'function not found (anchor lost)')
+            run.undecided(rule, 'number::Number::' + fn, 'body', 'function not found (anchor lost)')
             continue
         ps, _ = explore(b)
         seen = set()
@@ -570,7 +602,7 @@ def r18_5(ctx, run, rule='R18.5'):
                             run.violation(rule, b.path, f'arm[{vname}]/none', f'None is returned for {inside}, which {target} can represent', loc)
     b = f.one('number::Number::as_f64')
     if b is None:
-        run.violation(rule, 'number::Number::as_f64', 'body', 'function not found (anchor lost)')
+        run.undecided(rule, 'number::Number::as_f64', 'body', 'function not found (anchor lost)')
     else:
         ps, _ = explore(b)
         for q in ps:
